@@ -296,6 +296,7 @@ type syRig struct {
 	// server-side backlog estimate (see wait): envelopes written by the client that are not unary requests / opens,
 	// envelopes still in flight towards the server, receives completed by handlers
 	c2sNoQueue atomic.Int64
+	c2sDelivQ  atomic.Int64 // envelopes delivered to the server that go through a stream's queue
 	c2sTotal   atomic.Int64
 	hrecvs     atomic.Int64
 }
@@ -705,6 +706,16 @@ func (r *syRig) do(a syAct) {
 		g.parked.Store(false)
 		g.ch <- struct{}{}
 	case 'C':
+		// classify the envelope that is about to reach the server: requests of unary calls and stream opens do not
+		// go through a stream's queue
+		r.link.mu.Lock()
+		if len(r.link.c2s) > 0 {
+			e := r.link.c2s[0]
+			if !(strings.HasSuffix(e.GetHeader().GetMethod(), "Unary") || (e.GetBody() == nil && e.GetTrailer() == nil)) {
+				r.c2sDelivQ.Add(1)
+			}
+		}
+		r.link.mu.Unlock()
 		r.link.StepC2S()
 	case 'S':
 		r.link.StepS2C()
@@ -723,8 +734,7 @@ type syStep struct {
 // two or more stream envelopes delivered to the server are not yet received by a handler this can be the case,
 // and quiescence is detected from the goroutine dump instead (durably blocked or waiting for a mutex).
 func (r *syRig) wait() {
-	inflight, _ := r.link.InFlight()
-	backlog := r.c2sTotal.Load() - r.c2sNoQueue.Load() - int64(inflight) - r.hrecvs.Load()
+	backlog := r.c2sDelivQ.Load() - r.hrecvs.Load()
 	if backlog < 2 {
 		synctest.Wait()
 		syLastDump = "synctest.Wait"
@@ -756,6 +766,7 @@ func (r *syRig) wait() {
 }
 
 var syLastDump string
+var syDebugWait = false
 
 // syBubbleQuiet: every goroutine of a bubble other than the caller is durably blocked or waits for a mutex;
 // the fingerprint is the list of their header lines and top frames.
